@@ -6,9 +6,10 @@
      collapsed_spec, nerode_index_spec
      collapsed_connected_minimal                          (Myhill-Nerode minimality, pigeonhole)
      C04_oracle_meaning.
-   Facts about merge_partitions (pmerge) that another file (MergeProofs.v) proves are taken as the
-   explicit premise [merge_facts]; nothing here is assumed globally. *)
-Require Import Base CharSet Partition PartitionSpec PartitionProofs Automaton BuilderSpec.
+   The lemmas of sections 1-14 take the two facts about merge_partitions (pmerge) they need as the
+   explicit premise [merge_facts]; section 15 discharges it with MergeProofs.merge_wf / merge_refines
+   and states the final, premise-free theorems quoted by Properties/C04.v. *)
+Require Import Base CharSet Partition PartitionSpec PartitionProofs MergeProofs Automaton BuilderSpec.
 Local Open Scope nat_scope.
 
 (* ------------------------------------------------------------------ 0. the premise on pmerge *)
@@ -1003,3 +1004,489 @@ Proof.
   apply collapsed_connected_minimal_sem; auto.
   intros w Hw. rewrite <- (Hl w Hw). apply HAC. exact Hw.
 Qed.
+
+(* ------------------------------------------------------------------ 12. the index, consistency, quotients *)
+(* pigeonhole in relational form *)
+Lemma inj_count (P : nat -> nat -> Prop) n m :
+  (forall i, i < n -> exists j, j < m /\ P i j) ->
+  (forall i i' j, i < n -> i' < n -> P i j -> P i' j -> i = i') -> n <= m.
+Proof.
+  intros Hex Hinj.
+  destruct (finite_choice 0 (fun i j => j < m /\ P i j) n Hex) as [l [Hlen Hl]].
+  rewrite <- Hlen. apply nodup_bounded_length.
+  - apply (NoDup_nth l 0). intros i i' Hi Hi' He. rewrite Hlen in Hi, Hi'.
+    destruct (Hl i Hi) as [_ H1]. destruct (Hl i' Hi') as [_ H2]. rewrite He in H1. eapply Hinj; eauto.
+  - intros x Hx. destruct (In_nth _ _ 0 Hx) as [i [Hi <-]]. rewrite Hlen in Hi. apply Hl. exact Hi.
+Qed.
+
+(* a reachable state of a corresponds to a state of b with the same residual language *)
+Lemma reachable_counterpart a b s : aut_wf a -> aut_wf b -> same_language a b -> s < num_states a ->
+  reachable_state a s -> exists t, t < num_states b /\ lang_equiv_states a s b t.
+Proof.
+  intros Ha Hb Hl Hs [w [Hw Hr]]. apply same_language_iff in Hl.
+  destruct (run_total b w Hb Hw (initial b) (aut_wf_initial b Hb)) as [t [Ht Hlt]].
+  exists t. split; [exact Hlt|]. apply (lang_equiv_run a (initial a) b (initial b) w); auto.
+Qed.
+
+Lemma same_language_sym a b : same_language a b -> same_language b a.
+Proof. intros H w Hw. symmetry. apply H. exact Hw. Qed.
+
+(* with all states of A and of B reachable, a collapsed B equivalent to A has exactly
+   nerode_index A states: the Myhill-Nerode index of the common language *)
+Theorem collapsed_connected_index A B : merge_facts -> aut_wf A -> aut_wf B ->
+  same_language A B -> no_equiv_states B -> all_reachable A -> all_reachable B ->
+  nerode_index A = Some (num_states B).
+Proof.
+  intros Hm HA HB Hl Hcol HrA HrB.
+  destruct (nerode_index_spec A Hm HA) as [k [reps [Hidx [Hlen [Hnd [Hrng [Hdist Hcov]]]]]]].
+  rewrite Hidx. f_equal.
+  set (P := fun i t => lang_equiv_states A (nth i reps 0) B t).
+  assert (H1 : k <= num_states B).
+  { apply (inj_count P).
+    - intros i Hi. assert (Hin : In (nth i reps 0) reps) by (apply nth_In; lia).
+      apply (reachable_counterpart A B); auto.
+    - intros i i' t Hi Hi' Hp Hp'. apply (proj1 (NoDup_nth reps 0) Hnd); [lia..|].
+      apply Hdist; [apply nth_In; lia..|].
+      apply (lang_equiv_trans _ _ B t); [exact Hp|apply lang_equiv_sym; exact Hp']. }
+  assert (H2 : num_states B <= k).
+  { apply (inj_count (fun t i => P i t)).
+    - intros t Ht. destruct (reachable_counterpart B A t HB HA (same_language_sym _ _ Hl) Ht (HrB t Ht)) as [s [Hs He]].
+      destruct (Hcov s Hs) as [r [Hr Her]]. destruct (In_nth _ _ 0 Hr) as [i [Hi Hv]].
+      exists i. split; [lia|]. unfold P. rewrite Hv.
+      apply (lang_equiv_trans _ _ A s); apply lang_equiv_sym; assumption.
+    - intros t t' i Ht Ht' Hp Hp'. apply Hcol; auto.
+      apply (lang_equiv_trans _ _ A (nth i reps 0)); [apply lang_equiv_sym; exact Hp|exact Hp']. }
+  lia.
+Qed.
+
+(* initial state, finality flags and final-state count of a well-formed result are consistent *)
+Theorem wf_flags_consistent A B : aut_wf B -> same_language A B ->
+  initial B < num_states B /\
+  num_final B = length (filter (fun s => a_is_final B s) (seq 0 (num_states B))) /\
+  a_is_final A (initial A) = a_is_final B (initial B).
+Proof.
+  intros HB Hl. split; [apply aut_wf_initial; exact HB|]. split.
+  - destruct HB as [Hlen [_ [Hf _]]]. rewrite <- Hf, <- Hlen. unfold a_is_final, a_state.
+    generalize (astates B). intros l.
+    assert (H : forall (l0 : list astate), length (filter a_final l) =
+              length (filter (fun s => a_final (nth s (l0 ++ l) dstate)) (seq (length l0) (length l)))).
+    { clear. induction l as [|x l IH]; intros l0; [reflexivity|].
+      cbn [length seq filter]. rewrite app_nth2 by lia. rewrite Nat.sub_diag. cbn [nth].
+      specialize (IH (l0 ++ [x])). rewrite app_length in IH. cbn [length] in IH.
+      rewrite Nat.add_1_r, <- app_assoc in IH. cbn [app] in IH.
+      destruct (a_final x); cbn [length]; rewrite IH; reflexivity. }
+    apply (H []).
+  - specialize (Hl [] (Forall_nil _)). rewrite !accepts_acc, !acc_nil in Hl. injection Hl. auto.
+Qed.
+
+(* homomorphic images accept the same language: what from_partition + remap_nodes build when the
+   partition respects finality and is stable *)
+Theorem quotient_lang A Q (h : nat -> nat) : aut_wf A ->
+  (forall s, s < num_states A -> a_is_final Q (h s) = a_is_final A s) ->
+  (forall s c s', s < num_states A -> good c -> a_step A s c = Some s' -> a_step Q (h s) c = Some (h s')) ->
+  forall s, s < num_states A -> lang_equiv_states A s Q (h s).
+Proof.
+  intros HA Hfin Hstep s Hs w Hw. revert s Hs. induction Hw as [|c w Hc _ IH]; intros s Hs.
+  - rewrite !acc_nil, Hfin by exact Hs. reflexivity.
+  - rewrite !acc_cons. destruct (step_total A s c HA Hs Hc) as [s' [Hs' Hlt]].
+    rewrite Hs', (Hstep s c s' Hs Hc Hs'). apply IH. exact Hlt.
+Qed.
+
+Corollary quotient_same_language A Q h : aut_wf A ->
+  (forall s, s < num_states A -> a_is_final Q (h s) = a_is_final A s) ->
+  (forall s c s', s < num_states A -> good c -> a_step A s c = Some s' -> a_step Q (h s) c = Some (h s')) ->
+  h (initial A) = initial Q -> same_language A Q.
+Proof.
+  intros HA Hf Hs Hi. apply same_language_iff. rewrite <- Hi.
+  apply quotient_lang; auto. apply aut_wf_initial. exact HA.
+Qed.
+
+(* a quotient that merges all Nerode-equivalent states (and only uses blocks that occur) is collapsed *)
+Theorem stable_coarse_is_nerode A Q h : aut_wf A ->
+  (forall s, s < num_states A -> a_is_final Q (h s) = a_is_final A s) ->
+  (forall s c s', s < num_states A -> good c -> a_step A s c = Some s' -> a_step Q (h s) c = Some (h s')) ->
+  (forall q, q < num_states Q -> exists s, s < num_states A /\ h s = q) ->
+  (forall s t, s < num_states A -> t < num_states A -> lang_equiv_states A s A t -> h s = h t) ->
+  no_equiv_states Q.
+Proof.
+  intros HA Hf Hst Hsur Hco q q' Hq Hq' He.
+  destruct (Hsur q Hq) as [s [Hs <-]]. destruct (Hsur q' Hq') as [t [Ht <-]].
+  apply Hco; auto.
+  apply (lang_equiv_trans _ _ Q (h s)); [apply quotient_lang; auto|].
+  apply (lang_equiv_trans _ _ Q (h t)); [exact He|apply lang_equiv_sym; apply quotient_lang; auto].
+Qed.
+
+(* when all states of A are reachable, nerode_index A is a lower bound for the number of states of
+   every complete DFA of the language: it is the Myhill-Nerode index *)
+Theorem nerode_index_lower_bound A C k : merge_facts -> aut_wf A -> aut_wf C ->
+  all_reachable A -> same_language A C -> nerode_index A = Some k -> k <= num_states C.
+Proof.
+  intros Hm HA HC Hr Hl Hk.
+  destruct (nerode_index_spec A Hm HA) as [k' [reps [Hidx [Hlen [Hnd [Hrng [Hdist Hcov]]]]]]].
+  assert (k' = k) by congruence. subst k'.
+  apply (inj_count (fun i t => lang_equiv_states A (nth i reps 0) C t)).
+  - intros i Hi. assert (Hin : In (nth i reps 0) reps) by (apply nth_In; lia).
+    apply (reachable_counterpart A C); auto.
+  - intros i i' t Hi Hi' Hp Hp'. apply (proj1 (NoDup_nth reps 0) Hnd); [lia..|].
+    apply Hdist; [apply nth_In; lia..|].
+    apply (lang_equiv_trans _ _ C t); [exact Hp|apply lang_equiv_sym; exact Hp'].
+Qed.
+
+(* the four verdicts of the per-run validation of minimize's output B against its input A *)
+Theorem C04_validation_meaning A B : merge_facts -> aut_wf A -> aut_wfb B = true ->
+  dfa_equiv A B = Some true -> collapsed B = Some true -> nerode_index A = Some (num_states B) ->
+  same_language A B /\ no_equiv_states B /\
+  (exists reps, length reps = num_states B /\ residual_reps A reps) /\
+  (all_reachable A -> forall C, aut_wf C -> same_language A C -> num_states B <= num_states C) /\
+  (all_reachable B -> forall C, aut_wf C -> same_language A C -> num_states B <= num_states C) /\
+  initial B < num_states B /\
+  num_final B = length (filter (fun s => a_is_final B s) (seq 0 (num_states B))) /\
+  a_is_final A (initial A) = a_is_final B (initial B).
+Proof.
+  intros Hm HA HBb He Hc Hi. assert (HB : aut_wf B) by (apply aut_wfb_iff; exact HBb).
+  destruct (C04_oracle_meaning A B Hm HA HB He Hc) as [Hl [Hn Hmin]].
+  split; [exact Hl|]. split; [exact Hn|]. split.
+  { destruct (nerode_index_spec A Hm HA) as [k [reps [Hidx [Hlen Hreps]]]].
+    exists reps. split; [congruence|exact Hreps]. }
+  split.
+  { intros Hr C HC HAC. apply (nerode_index_lower_bound A C _ Hm HA HC Hr HAC Hi). }
+  split; [exact Hmin|]. apply wf_flags_consistent; assumption.
+Qed.
+
+(* ------------------------------------------------------------------ 13. a small automaton for the examples *)
+(* names 0..5; 1 ~ 2 (both go to the final state on a..c, to a sink otherwise), 3 ~ 4 (a cycle of
+   equivalent sinks), 5 final *)
+Definition ex_builder : builder :=
+  let b := b_new 0 in
+  let b := b_add_transition b 0 (97, 97)%N 1 in
+  let b := b_add_transition b 0 (98, 98)%N 2 in
+  let b := b_set_default b 0 3 in
+  let b := b_add_transition b 1 (97, 99)%N 5 in
+  let b := b_set_default b 1 3 in
+  let b := b_add_transition b 2 (97, 98)%N 5 in
+  let b := b_add_transition b 2 (99, 99)%N 5 in
+  let b := b_set_default b 2 4 in
+  let b := b_set_default b 3 4 in
+  let b := b_set_default b 4 3 in
+  let b := b_set_default b 5 3 in
+  b_mark_final b 5.
+
+(* ------------------------------------------------------------------ 14. the reachable oracle *)
+(* [reachable] follows the default edge of a state even when its complementary class is empty (such a
+   default is never taken).  On automata without such dead defaults it computes exactly the states
+   reached from the initial state by good words. *)
+Definition strict_defaults (a : automaton) : Prop :=
+  forall s, s < num_states a -> a_default (a_state a s) <> None ->
+    pempty_complement (a_classes (a_state a s)) = false.
+Definition strict_defaultsb (a : automaton) : bool :=
+  forallb (fun s => match a_default s with Some _ => negb (pempty_complement (a_classes s)) | None => true end)
+          (astates a).
+
+Lemma strict_defaultsb_iff a : length (astates a) = num_states a ->
+  (strict_defaultsb a = true <-> strict_defaults a).
+Proof.
+  intros Hl. unfold strict_defaultsb, strict_defaults. rewrite forallb_forall. split.
+  - intros H s Hs Hd. specialize (H (a_state a s) (a_state_in a s Hl Hs)).
+    destruct (a_default (a_state a s)); [|congruence]. apply negb_true_iff in H. exact H.
+  - intros H st Hin. destruct (In_nth _ _ dstate Hin) as [i [Hi <-]]. rewrite Hl in Hi. specialize (H i Hi).
+    fold (a_state a i). destruct (a_default (a_state a i)); [|reflexivity].
+    apply negb_true_iff. apply H. discriminate.
+Qed.
+
+Lemma step_in_edges a s c t : a_step a s c = Some t -> In t (edges (a_state a s)).
+Proof.
+  unfold a_step, a_next, edges. destruct (pclass_of_char (a_classes (a_state a s)) c) as [[i|]|]; [| |discriminate].
+  - intros H. apply in_or_app. left. eapply nth_error_In; eauto.
+  - intros H. apply in_or_app. right. rewrite H. left. reflexivity.
+Qed.
+
+Lemma edges_step a s t : aut_wf a -> strict_defaults a -> s < num_states a ->
+  In t (edges (a_state a s)) -> exists c, good c /\ a_step a s c = Some t.
+Proof.
+  intros Hwf Hstrict Hs Hin. destruct (aut_wf_state a s Hwf Hs) as [_ [Hp [Hlen _]]].
+  pose proof (pwf_sorted _ Hp) as Hsorted. unfold edges in Hin. apply in_app_or in Hin. destruct Hin as [Hin | Hin].
+  - destruct (In_nth_error _ _ Hin) as [i Hi]. pose proof (nth_error_lt_len _ _ _ Hi) as Hlt. rewrite Hlen in Hlt.
+    destruct (nth_error_in_range _ _ Hlt) as [iv Hiv].
+    destruct (sorted_nth_valid _ _ _ Hsorted Hiv) as [Hv1 Hv2].
+    assert (Hc : in_class (a_classes (a_state a s)) (fst iv) (CInt i)).
+    { exists iv. split; [exact Hiv|]. unfold mem. split; [apply N.le_refl|exact Hv1]. }
+    exists (fst iv). split; [unfold good; eapply N.le_trans; eauto|].
+    unfold a_step, a_next. rewrite (pclass_of_char_complete _ _ _ Hsorted Hc). exact Hi.
+  - destruct (a_default (a_state a s)) as [d|] eqn:Hd; [|destruct Hin]. destruct Hin as [<- | []].
+    assert (He : pempty_complement (a_classes (a_state a s)) = false) by (apply Hstrict; [exact Hs|congruence]).
+    destruct (ppick_complement_spec _ Hp) as [_ H]. destruct (H He) as [Hc _].
+    exists (ppick_complement (a_classes (a_state a s))). split; [apply Hc|].
+    unfold a_step, a_next. rewrite (pclass_of_char_complete _ _ _ Hsorted Hc). exact Hd.
+Qed.
+
+Definition visit (qs : list nat * list nat) (n : nat) : list nat * list nat :=
+  if existsb (Nat.eqb n) (snd qs) then qs else (fst qs ++ [n], n :: snd qs).
+
+Lemma existsb_nat_in n l : existsb (Nat.eqb n) l = true <-> In n l.
+Proof.
+  rewrite existsb_exists. split.
+  - intros [x [Hx He]]. apply Nat.eqb_eq in He. subst. exact Hx.
+  - intros H. exists n. split; [exact H|apply Nat.eqb_refl].
+Qed.
+
+Lemma visit_fold : forall es q sn, exists new,
+  fold_left visit es (q, sn) = (q ++ new, rev new ++ sn) /\ NoDup new /\
+  (forall x, In x new -> ~ In x sn) /\ (forall x, In x new -> In x es) /\
+  (forall x, In x es -> In x (rev new ++ sn)).
+Proof.
+  induction es as [|e es IH]; intros q sn.
+  - exists []. cbn [fold_left rev app]. rewrite app_nil_r. split; [reflexivity|]. split; [constructor|].
+    split; [intros x []|]. split; intros x [].
+  - cbn [fold_left]. unfold visit at 2. cbn [fst snd]. destruct (existsb (Nat.eqb e) sn) eqn:He.
+    + apply existsb_nat_in in He. destruct (IH q sn) as [new [Hf [Hnd [Hns [Hes Hall]]]]].
+      exists new. split; [exact Hf|]. split; [exact Hnd|]. split; [exact Hns|]. split.
+      * intros x Hx. right. apply Hes. exact Hx.
+      * intros x [<- | Hx]; [apply in_or_app; right; exact He|apply Hall; exact Hx].
+    + assert (Hnin : ~ In e sn) by (intros H; apply existsb_nat_in in H; congruence).
+      destruct (IH (q ++ [e]) (e :: sn)) as [new [Hf [Hnd [Hns [Hes Hall]]]]].
+      exists (e :: new). split; [rewrite Hf; cbn [rev]; rewrite <- !app_assoc; reflexivity|].
+      split; [constructor; [intros H; apply (Hns _ H); left; reflexivity|exact Hnd]|].
+      split; [intros x [<- | Hx]; [exact Hnin|intros H; apply (Hns x Hx); right; exact H]|].
+      split; [intros x [<- | Hx]; [left; reflexivity|right; apply Hes; exact Hx]|].
+      cbn [rev]. intros x [<- | Hx]; rewrite <- app_assoc.
+      * apply in_or_app. right. left. reflexivity.
+      * apply Hall. exact Hx.
+Qed.
+
+Lemma reach_go_unfold f a i q seen out :
+  reach_go (S f) a (i :: q) seen out =
+  let qs := fold_left visit (edges (a_state a i)) (q, seen) in reach_go f a (fst qs) (snd qs) (out ++ [i]).
+Proof.
+  cbn [reach_go]. change (fun qs n => if existsb (Nat.eqb n) (snd qs) then qs else (fst qs ++ [n], n :: snd qs)) with visit.
+  destruct (fold_left visit (edges (a_state a i)) (q, seen)) as [q1 s1]. reflexivity.
+Qed.
+
+Definition rinv (a : automaton) (queue seen out : list nat) : Prop :=
+  NoDup (out ++ queue) /\ (forall x, In x seen <-> In x out \/ In x queue) /\
+  (forall x, In x seen -> x < num_states a) /\
+  (forall x t, In x out -> In t (edges (a_state a x)) -> In t seen) /\
+  (forall x, In x seen -> reachable_state a x) /\ In (initial a) seen.
+
+Lemma reach_go_spec a : aut_wf a -> strict_defaults a ->
+  forall fuel queue seen out, rinv a queue seen out -> fuel + length out > num_states a ->
+  forall s, In s (reach_go fuel a queue seen out) <-> s < num_states a /\ reachable_state a s.
+Proof.
+  intros Hwf Hstrict. induction fuel as [|f IH]; intros queue seen out Hinv Hm.
+  - exfalso. destruct Hinv as [Hnd [Hiff [Hb _]]].
+    assert (length (out ++ queue) <= num_states a).
+    { apply nodup_bounded_length; [exact Hnd|]. intros x Hx. apply Hb. apply Hiff. apply in_app_or. exact Hx. }
+    rewrite app_length in H. cbn [Nat.add] in Hm. lia.
+  - destruct queue as [|i q].
+    + cbn [reach_go]. destruct Hinv as [Hnd [Hiff [Hb [Hcl [Hre Hin0]]]]].
+      assert (Hso : forall x, In x seen <-> In x out).
+      { intros x. rewrite Hiff. split; [intros [H | []]; exact H|intros H; left; exact H]. }
+      intros s. split.
+      * intros Hs. apply Hso in Hs. split; [apply Hb; exact Hs|apply Hre; exact Hs].
+      * intros [Hs [w [Hw Hr]]]. apply Hso in Hin0.
+        assert (Hgen : forall w, goodw w -> forall x, In x out -> run a x w = Some s -> In s out).
+        { clear w Hw Hr. intros w Hw. induction Hw as [|c w Hc _ IHw]; intros x Hx Hr.
+          - rewrite run_nil in Hr. injection Hr as <-. exact Hx.
+          - rewrite run_cons in Hr. destruct (a_step a x c) as [y|] eqn:Hy; [|discriminate].
+            apply (IHw y); [|exact Hr]. apply Hso. eapply Hcl; [exact Hx|]. eapply step_in_edges; eauto. }
+        apply (Hgen w Hw (initial a) Hin0 Hr).
+    + rewrite reach_go_unfold. cbv zeta. destruct Hinv as [Hnd [Hiff [Hb [Hcl [Hre Hin0]]]]].
+      destruct (visit_fold (edges (a_state a i)) q seen) as [new [Hf [Hndn [Hns [Hes Hall]]]]].
+      rewrite Hf. cbn [fst snd].
+      assert (Hi : In i seen) by (apply Hiff; right; left; reflexivity).
+      assert (Hilt : i < num_states a) by (apply Hb; exact Hi).
+      apply IH.
+      * split; [|split; [|split; [|split; [|split]]]].
+        -- replace ((out ++ [i]) ++ q ++ new) with ((out ++ i :: q) ++ new) by (rewrite <- !app_assoc; reflexivity).
+           apply NoDup_app_intro; [exact Hnd|exact Hndn|].
+           intros x Hx Hn. apply (Hns x Hn). apply Hiff. apply in_app_or. exact Hx.
+        -- intros x. rewrite !in_app_iff, <- in_rev, Hiff. cbn [In]. tauto.
+        -- intros x Hx. apply in_app_or in Hx. destruct Hx as [Hx | Hx]; [|apply Hb; exact Hx].
+           apply in_rev in Hx. destruct (edges_step a i x Hwf Hstrict Hilt (Hes x Hx)) as [c [Hc Hst]].
+           destruct (step_total a i c Hwf Hilt Hc) as [y [Hy Hlt]]. congruence.
+        -- intros x t Hx Ht. apply in_app_or in Hx. destruct Hx as [Hx | [<- | []]].
+           ++ apply in_or_app. right. eapply Hcl; eauto.
+           ++ apply Hall. exact Ht.
+        -- intros x Hx. apply in_app_or in Hx. destruct Hx as [Hx | Hx]; [|apply Hre; exact Hx].
+           apply in_rev in Hx. destruct (edges_step a i x Hwf Hstrict Hilt (Hes x Hx)) as [c [Hc Hst]].
+           destruct (Hre i Hi) as [w [Hw Hr]]. exists (w ++ [c]).
+           split; [apply goodw_app; [exact Hw|constructor; [exact Hc|constructor]]|].
+           rewrite run_app, Hr, run_cons, Hst. reflexivity.
+        -- apply in_or_app. right. exact Hin0.
+      * rewrite app_length. cbn [length]. lia.
+Qed.
+
+Lemma insert_nat_in x y l : In x (insert_nat y l) <-> x = y \/ In x l.
+Proof.
+  induction l as [|z l IH]; cbn [insert_nat].
+  - cbn [In]. split; [intros [H | []]; left; auto|intros [H | []]; left; auto].
+  - destruct (Nat.leb y z); cbn [In]; [split; intros [H | H]; auto|].
+    rewrite IH. tauto.
+Qed.
+Lemma sort_nat_in x l : In x (sort_nat l) <-> In x l.
+Proof.
+  unfold sort_nat. induction l as [|y l IH]; cbn [fold_right]; [reflexivity|].
+  rewrite insert_nat_in, IH. cbn [In]. split; intros [H | H]; auto.
+Qed.
+
+Theorem reachable_spec a s : aut_wf a -> strict_defaults a ->
+  (In s (reachable a) <-> s < num_states a /\ reachable_state a s).
+Proof.
+  intros Hwf Hstrict. unfold reachable. rewrite sort_nat_in.
+  apply (reach_go_spec a Hwf Hstrict); [|cbn [length]; lia].
+  split; [|split; [|split; [|split; [|split]]]].
+  - cbn [app]. constructor; [intros []|constructor].
+  - intros x. cbn [In]. tauto.
+  - intros x [<- | []]. apply aut_wf_initial. exact Hwf.
+  - intros x t [].
+  - intros x [<- | []]. exists []. split; [constructor|reflexivity].
+  - left. reflexivity.
+Qed.
+
+(* the executable form of "all states are reachable" *)
+Corollary reachable_all a : aut_wf a -> strict_defaults a ->
+  ((forall s, s < num_states a -> In s (reachable a)) <-> all_reachable a).
+Proof.
+  intros Hwf Hstrict. split.
+  - intros H s Hs. apply (reachable_spec a s Hwf Hstrict). apply H. exact Hs.
+  - intros H s Hs. apply (reachable_spec a s Hwf Hstrict). split; [exact Hs|apply H; exact Hs].
+Qed.
+
+(* witness: with a dead default (state 0 covers every character and still declares default 2) the
+   reachable oracle lists state 2, which no word reaches; aut_wfb accepts this automaton *)
+Definition dead_default_aut : automaton :=
+  {| num_states := 3; num_final := 1; initial := 0;
+     astates :=
+       [ {| a_id := 0; a_final := false; a_classes := {| ivs := [(0, MAXC)%N]; wit := (MAXC + 1)%N |};
+            a_succ := [1]; a_default := Some 2 |};
+         {| a_id := 1; a_final := false; a_classes := pnew; a_succ := []; a_default := Some 1 |};
+         {| a_id := 2; a_final := true; a_classes := pnew; a_succ := []; a_default := Some 2 |} ] |}.
+
+Lemma reachable_dead_default_witness :
+  aut_wfb dead_default_aut = true /\ reachable dead_default_aut = [0; 1; 2] /\
+  ~ reachable_state dead_default_aut 2 /\ ~ strict_defaults dead_default_aut.
+Proof.
+  split; [vm_compute; reflexivity|]. split; [vm_compute; reflexivity|].
+  assert (H1 : forall c, a_step dead_default_aut 1 c = Some 1) by (intros c; reflexivity).
+  assert (H0 : forall c, good c -> a_step dead_default_aut 0 c = Some 1).
+  { intros c Hc. unfold a_step, a_next. cbn [dead_default_aut a_state astates nth a_classes a_succ a_default].
+    rewrite (pclass_of_char_complete _ c (CInt 0)); [reflexivity| |].
+    - cbn [ivs ivs_sorted]. split; [|split; exact I]. unfold cs_valid. cbn [fst snd]. unfold MAXC. lia.
+    - exists (0, MAXC)%N. split; [reflexivity|]. unfold mem. cbn [fst snd]. unfold good in Hc. lia. }
+  assert (Hl : forall w, run dead_default_aut 1 w = Some 1).
+  { induction w as [|c w IH]; [reflexivity|]. rewrite run_cons, H1. exact IH. }
+  split.
+  - intros [w [Hw Hr]]. destruct Hw as [|c w Hc Hw].
+    + rewrite run_nil in Hr. discriminate.
+    + cbn [initial dead_default_aut] in Hr. rewrite run_cons, (H0 c Hc), Hl in Hr. discriminate.
+  - intros H. specialize (H 0). cbn in H. assert (He : true = false); [|discriminate].
+    apply H; [lia|discriminate].
+Qed.
+
+(* ------------------------------------------------------------------ 15. premise-free statements *)
+Lemma merge_facts_hold : merge_facts.
+Proof.
+  split.
+  - intros p1 p2 H1 H2. apply merge_wf; assumption.
+  - intros p1 p2 x y H1 H2 _ _ H. apply (merge_refines p1 p2 x y H1 H2 H).
+Qed.
+
+Theorem c04_alphabet_same_successor a x y s : aut_wf a -> s < num_states a -> good x -> good y ->
+  same_class (combined_partition a) x y -> a_step a s x = a_step a s y.
+Proof. exact (combined_same_successor a x y s merge_facts_hold). Qed.
+
+Theorem c04_pick_alphabet_ok a : aut_wf a -> alpha_ok a (pick_alphabet a).
+Proof. exact (pick_alphabet_ok a merge_facts_hold). Qed.
+
+(* exactly one representative: two picks of the same class are equal *)
+Lemma Forall2_in_r_nth {A B} (R : A -> B -> Prop) l1 l2 y :
+  Forall2 R l1 l2 -> In y l2 -> exists i x, nth_error l1 i = Some x /\ nth_error l2 i = Some y /\ R x y.
+Proof.
+  induction 1 as [|a b l1 l2 Hab _ IH]; intros Hin; [destruct Hin|].
+  destruct Hin as [-> | Hin].
+  - exists 0, a. split; [reflexivity|]. split; [reflexivity|exact Hab].
+  - destruct (IH Hin) as [i [x [H1 [H2 H3]]]]. exists (S i), x. split; [exact H1|]. split; [exact H2|exact H3].
+Qed.
+
+Lemma picks_unique P r r' : pwf P -> In r (ppicks P) -> In r' (ppicks P) -> same_class P r r' -> r = r'.
+Proof.
+  intros Hp Hr Hr' Hs. pose proof (ppicks_in_class P Hp) as HF.
+  destruct (Forall2_in_r_nth _ _ _ r HF Hr) as [i [k [Hi [Hri [Hg Hk]]]]].
+  destruct (Forall2_in_r_nth _ _ _ r' HF Hr') as [j [k' [Hj [Hrj [Hg' Hk']]]]].
+  apply (same_class_iff_in_class P r r' Hg Hg') in Hs. destruct Hs as [c [Hc Hc']].
+  pose proof (pwf_sorted _ Hp) as Hsorted.
+  assert (k = c) by (eapply in_class_fun; eauto). assert (k' = c) by (eapply in_class_fun; eauto). subst k k'.
+  assert (i = j).
+  { apply (proj1 (NoDup_nth_error (pclass_ids P)) (pclass_ids_nodup P)); [eapply nth_error_lt_len; eauto|congruence]. }
+  subst j. congruence.
+Qed.
+
+Theorem c04_pick_alphabet_repr a : aut_wf a ->
+  Forall good (pick_alphabet a) /\
+  (forall c, good c -> exists r, In r (pick_alphabet a) /\ same_class (combined_partition a) c r /\
+     forall s, s < num_states a -> a_step a s c = a_step a s r) /\
+  (forall r r', In r (pick_alphabet a) -> In r' (pick_alphabet a) -> same_class (combined_partition a) r r' -> r = r').
+Proof.
+  intros Hwf. destruct (combined_refines a merge_facts_hold Hwf) as [Hp Hr].
+  destruct (picks_cover _ Hp) as [Hg Hc]. unfold pick_alphabet. split; [exact Hg|]. split.
+  - intros c Hgc. destruct (Hc c Hgc) as [r [Hin [Hgr Hs]]]. exists r. split; [exact Hin|]. split; [exact Hs|].
+    intros s Hlt. apply same_class_step; auto.
+  - intros r r'. apply picks_unique. exact Hp.
+Qed.
+
+Theorem c04_joint_alphabet_ok a b : aut_wf a -> aut_wf b -> alpha_ok2 a b (joint_alphabet a b).
+Proof. exact (joint_alphabet_ok a b merge_facts_hold). Qed.
+
+Theorem c04_dfa_equiv_from a b s t : aut_wf a -> aut_wf b -> s < num_states a -> t < num_states b ->
+  dfa_equiv_from a b s t <> None /\ (dfa_equiv_from a b s t = Some true <-> lang_equiv_states a s b t).
+Proof. exact (dfa_equiv_from_sound_complete a b s t merge_facts_hold). Qed.
+
+Theorem c04_dfa_equiv_from_false a b s t : aut_wf a -> aut_wf b -> s < num_states a -> t < num_states b ->
+  (dfa_equiv_from a b s t = Some false <-> ~ lang_equiv_states a s b t).
+Proof. exact (dfa_equiv_from_false a b s t merge_facts_hold). Qed.
+
+Theorem c04_dfa_equiv a b : aut_wf a -> aut_wf b ->
+  dfa_equiv a b <> None /\ (dfa_equiv a b = Some true <-> same_language a b).
+Proof. exact (dfa_equiv_spec a b merge_facts_hold). Qed.
+
+Theorem c04_nerode_classes a : aut_wf a ->
+  exists cls, nerode_classes a = Some cls /\ length cls = num_states a /\
+    forall s t, s < num_states a -> t < num_states a ->
+      (nth s cls 0 = nth t cls 0 <-> lang_equiv_states a s a t).
+Proof. exact (nerode_classes_spec a merge_facts_hold). Qed.
+
+Theorem c04_collapsed a : aut_wf a -> collapsed a <> None /\ (collapsed a = Some true <-> no_equiv_states a).
+Proof. exact (collapsed_spec a merge_facts_hold). Qed.
+
+Theorem c04_nerode_index a : aut_wf a ->
+  exists k reps, nerode_index a = Some k /\ length reps = k /\ residual_reps a reps.
+Proof. exact (nerode_index_spec a merge_facts_hold). Qed.
+
+Theorem c04_minimal_when_connected a b : aut_wf a -> aut_wf b ->
+  collapsed a = Some true -> all_reachable a -> dfa_equiv a b = Some true -> num_states a <= num_states b.
+Proof. exact (collapsed_connected_minimal a b merge_facts_hold). Qed.
+
+Theorem c04_index_lower_bound A C k : aut_wf A -> aut_wf C ->
+  all_reachable A -> same_language A C -> nerode_index A = Some k -> k <= num_states C.
+Proof. exact (nerode_index_lower_bound A C k merge_facts_hold). Qed.
+
+Theorem c04_index_attained A B : aut_wf A -> aut_wf B ->
+  same_language A B -> no_equiv_states B -> all_reachable A -> all_reachable B ->
+  nerode_index A = Some (num_states B).
+Proof. exact (collapsed_connected_index A B merge_facts_hold). Qed.
+
+Theorem c04_oracle_meaning A B : aut_wf A -> aut_wf B ->
+  dfa_equiv A B = Some true -> collapsed B = Some true ->
+  same_language A B /\ no_equiv_states B /\
+  (all_reachable B -> forall C, aut_wf C -> same_language A C -> num_states B <= num_states C).
+Proof. exact (C04_oracle_meaning A B merge_facts_hold). Qed.
+
+Theorem c04_validation_meaning A B : aut_wf A -> aut_wfb B = true ->
+  dfa_equiv A B = Some true -> collapsed B = Some true -> nerode_index A = Some (num_states B) ->
+  same_language A B /\ no_equiv_states B /\
+  (exists reps, length reps = num_states B /\ residual_reps A reps) /\
+  (all_reachable A -> forall C, aut_wf C -> same_language A C -> num_states B <= num_states C) /\
+  (all_reachable B -> forall C, aut_wf C -> same_language A C -> num_states B <= num_states C) /\
+  initial B < num_states B /\
+  num_final B = length (filter (fun s => a_is_final B s) (seq 0 (num_states B))) /\
+  a_is_final A (initial A) = a_is_final B (initial B).
+Proof. exact (C04_validation_meaning A B merge_facts_hold). Qed.
